@@ -309,6 +309,16 @@ class RecordTemplate:
             return v.value
         if isinstance(v, ast.BinOp) and isinstance(v.op, ast.Add):
             return self.fmt(v.left, loopvars) + self.fmt(v.right, loopvars)
+        if isinstance(v, ast.Call) and isinstance(v.func, ast.Attribute) and v.func.attr == 'join' and isinstance(v.func.value, ast.Constant) and v.func.value.value == '' and len(v.args) == 1 \
+                and isinstance(v.args[0], (ast.ListComp, ast.GeneratorExp)) and len(v.args[0].generators) == 1 and not v.args[0].generators[0].ifs:
+            # ''.join([piece for x in X]): the pieces one after the other, i.e. the loop `for x in X: record += piece`
+            g = v.args[0].generators[0]
+            it = self.canon(g.iter, loopvars)
+            names = [n.id for n in ast.walk(g.target) if isinstance(n, ast.Name)]
+            lv = dict(loopvars)
+            for i, n in enumerate(names):
+                lv[n] = f'${len(loopvars) + i}'
+            return f'⟦for {",".join(lv[n] for n in names)} in {it}: {self.fmt(v.args[0].elt, lv)}⟧'
         if isinstance(v, ast.Name) and v.id in self.locals:
             return '{VAL:' + self.canon(v, loopvars) + '}'
         raise AnalysisError(f'{self.func.file}:{v.lineno}: signature fragment not understood: {unparse(v)[:60]}')
@@ -318,13 +328,20 @@ class RecordTemplate:
             return e.func.value
         return None
 
-    def _own(self, e: ast.AST) -> bool:
-        return (
-            self.acc is not None
-            and isinstance(e, ast.List)
-            and len(e.elts) == 1
-            and unparse(e.elts[0]) == f'{self.acc}.encode()'
-        )
+    def _own(self, e: ast.AST, loopvars=None, items=None) -> bool:
+        """`[<record>.encode()]`: the record is the accumulator, or the text itself written in place"""
+        if not (isinstance(e, ast.List) and len(e.elts) == 1):
+            return False
+        c = e.elts[0]
+        if not (isinstance(c, ast.Call) and isinstance(c.func, ast.Attribute) and c.func.attr == 'encode' and not c.args and not c.keywords):
+            return False
+        rec = c.func.value
+        if self.acc is not None and isinstance(rec, ast.Name) and rec.id == self.acc:
+            return True
+        if isinstance(rec, (ast.JoinedStr, ast.BinOp, ast.Constant)) and items is not None:
+            items.append(('text', self.fmt(rec, loopvars or {})))
+            return True
+        return False
 
     def _extract(self):
         body = self.func.explicit_body
@@ -335,7 +352,9 @@ class RecordTemplate:
                 if isinstance(first, ast.Constant) and str(first.value).startswith('<'):
                     self.acc = st.targets[0].id
                     break
-        if self.acc is None:
+        inline = any(isinstance(c, ast.Call) and isinstance(c.func, ast.Attribute) and c.func.attr == 'encode' and isinstance(c.func.value, (ast.JoinedStr, ast.BinOp))
+                     for st in body for c in ast.walk(st))
+        if self.acc is None and not inline:
             raise AnalysisError(f'{self.func.file}:{self.func.line}: {self.func.qualname}: no record accumulator found')
         self._walk(body, {}, self.items)
 
@@ -366,7 +385,7 @@ class RecordTemplate:
                         self.emitted.append(c)
                         self.own_last = False
                         continue
-                    if self._own(st.value):
+                    if self._own(st.value, loopvars, items):
                         self.own_last = True
                         continue
                 raise AnalysisError(f'{self.func.file}:{st.lineno}: statement of get_signature not understood: {unparse(st)[:70]}')
@@ -395,7 +414,7 @@ class RecordTemplate:
                 v = st.value
                 if isinstance(v, ast.Name) and v.id == self.listvar:
                     continue
-                if self._own(v):
+                if self._own(v, loopvars, items):
                     self.own_last = True
                     continue
                 raise AnalysisError(f'{self.func.file}:{st.lineno}: return of get_signature not understood: {unparse(v)[:60]}')
